@@ -9,6 +9,7 @@ pub(crate) trait BitRound {
 //pub(crate) struct U16;
 pub(crate) struct U32;
 pub(crate) struct U64;
+pub(crate) struct U128;
 
 macro_rules! impl_bitround {
     ($Ux:ty, $ux:ty) => {
@@ -32,6 +33,7 @@ macro_rules! impl_bitround {
 //impl_bitround!(U16, u16);
 impl_bitround!(U32, u32);
 impl_bitround!(U64, u64);
+impl_bitround!(U128, u128);
 
 macro_rules! convert_float {
     ($posit: ty, $float:ty, $x:expr, $buint:ty, $bint:ty) => {{
